@@ -1,3 +1,55 @@
-From JV Require Import Model.Base Model.C07.
-Theorem C07_placeholder : True. Proof. exact I. Qed.
-Print Assumptions C07_placeholder.
+(* C07 -- URL parsing never panics and its result is consistent with the schema.
+   [new_url_from s path values fo] mirrors NewSimpleURL + NewURL + NewParams
+   (Model/Url.v) for ARBITRARY inputs: [path] and [values] range over
+   everything url.Parse / url.Values can return (net/url is modelled, not
+   verified), [fo] over every outcome of decoding the filter parameter.
+   Hence "for any raw URL string". *)
+From JV Require Import Model.Base Model.GoTime Gen.TypeGo Model.Schema Model.Value
+  Model.Url Proofs.C07Facts.
+
+(* parsing returns an error or a URL, never panics (the model's loops have no
+   indexing or assertion left: the repaired code, see KNOWN_FINDINGS) *)
+Theorem C07_total : forall s path values fo, new_url_from s path values fo <> Panic.
+Proof. exact new_url_from_no_panic. Qed.
+Print Assumptions C07_total.
+
+(* the resource type of a returned URL exists in the schema *)
+Theorem C07_restype_in_schema : forall s su u,
+  new_url s su = Ok u -> has_type s (u_restype u) = true.
+Proof. exact new_url_restype. Qed.
+Print Assumptions C07_restype_in_schema.
+
+(* collection URLs: the rules mention only id or attributes of the type,
+   always contain id, and start with the caller's valid rules in order *)
+Theorem C07_sorting_rules : forall t rules,
+  let attrs := map (fun kv => aname (snd kv)) (tattrs t) in
+  Forall (rule_ok attrs) (sorting_rules t rules) /\
+  existsb (fun r => String.eqb (strip_minus r) "id") (sorting_rules t rules) = true /\
+  exists rest, sorting_rules t rules = (requested_rules attrs rules [] ++ rest)%list.
+Proof. exact sorting_rules_ok. Qed.
+Print Assumptions C07_sorting_rules.
+
+Theorem C07_rules_of_params : forall s su rt p,
+  new_params s su rt = Ok p ->
+  p_rules p = if is_collection s (su_fragments su) then sorting_rules (get_type s rt) (su_rules su) else [].
+Proof. exact new_params_rules. Qed.
+Print Assumptions C07_rules_of_params.
+
+(* the FULL statement about inclusion paths ("every inclusion path is a chain
+   of relationships that exists in the schema") is FALSE of the code:
+   recorded finding include-zero-rel-survives, pinned by TestParseParams *)
+Theorem C07_include_refuted :
+  exists u, new_url_from c07_schema "/t" [("include", ["zz,yy"])] FOErr = Ok u /\
+            In [zero_rel] (p_include (u_params u)).
+Proof. exact include_refuted. Qed.
+Print Assumptions C07_include_refuted.
+
+(* NOT PROVED here (correspondence + oracle only): the field-selection clause
+   (entries name schema types, list only that type's fields or id, no
+   duplicates, default to all fields) and the inclusion clause outside the
+   recorded finding. *)
+
+Example c07_rules_example :
+  sorting_rules (mkType "t" [("a", mkAttr "a" 1 false); ("b", mkAttr "b" 2 false)] [])
+                ["id"; "-a"; "zz"; "a"] = ["id"; "-a"; "b"].
+Proof. vm_compute. reflexivity. Qed.
